@@ -9,8 +9,8 @@
   copy|m,sc,n                    -> outcome=<…> final=<ints>        no-region identity copy, 1-D
   pairs|<nsrc>|<ntgt>|<N | one | many:k>
       -> ok <k> | error lenTargets | error lenRegions
-  store|<id:lazy:dep.dep:computed …>|<src:tgt:region:accepted …>
-      -> rejected <k> | lateError | done <w|m> …
+  store|<id:lazy:dep.dep …>|<src:tgt:region:accepted …>
+      -> rejected <k> | broken | done <w|m> …
 -/
 import CubedModel.Model.Proto
 import CubedModel.Model.StoreSem
@@ -93,14 +93,13 @@ def handlePairs (parts : List String) : String :=
 def handleStore (parts : List String) : String :=
   match parts with
   | [arrs, prs] =>
-    let tab : List (Nat × Bool × List Nat × Bool) := (arrs.splitOn " ").filterMap (fun s =>
+    let tab : List (Nat × Bool × List Nat) := (arrs.splitOn " ").filterMap (fun s =>
       match s.splitOn ":" with
-      | [i, l, d, c] => (parseNat? i).map (fun i => (i, l == "1", (d.splitOn ".").filterMap parseNat?, c == "1"))
+      | [i, l, d] => (parseNat? i).map (fun i => (i, l == "1", (d.splitOn ".").filterMap parseNat?))
       | _ => none)
     let A : Arrays :=
       { lazy := fun a => match tab.find? (fun e => e.1 == a) with | some e => e.2.1 | none => false
-        deps := fun a => match tab.find? (fun e => e.1 == a) with | some e => e.2.2.1 | none => []
-        computed := fun a => match tab.find? (fun e => e.1 == a) with | some e => e.2.2.2 | none => false }
+        deps := fun a => match tab.find? (fun e => e.1 == a) with | some e => e.2.2 | none => [] }
     let pairs : List Pair := (prs.splitOn " ").filterMap (fun s =>
       match s.splitOn ":" with
       | [a, t, r, ok] =>
@@ -110,7 +109,7 @@ def handleStore (parts : List String) : String :=
       | _ => none)
     match storeOutcome A pairs with
     | .rejected k => s!"rejected {k}"
-    | .lateError => "lateError"
+    | .broken => "broken"
     | .done rs => "done " ++ " ".intercalate (rs.map (fun r => match r with | .written => "w" | .missing => "m"))
   | _ => "bad-request"
 
